@@ -51,9 +51,9 @@ macro_rules! slice_same {
         #[kani::unwind(35)]
         fn $name() {
             let k: [u8; $klen] = kani::any();
-            let a = $ty::new(&Array(k));
-            replay_all();
             let b = $ty::new_from_slice(&k[..]).unwrap();
+            replay_all();
+            let a = $ty::new(&Array(k));
             assert!(all_done() && ufo::calls() == 2 && ufe::calls() == 1);
             assert!(eq_words(&a.ek, &b.ek, $n + 1) && eq_words(&a.dk, &b.dk, $n + 1));
             let s = $mk();
@@ -80,10 +80,12 @@ macro_rules! weak {
         fn $name() {
             let k: [u8; $klen] = kani::any();
             assert!($ty::weak_key_test(&Array(k)).is_ok());
-            let plain = $ty::new(&Array(k));
-            replay_all();
             match $ty::new_checked(&Array(k)) {
-                Ok(c) => assert!(all_done() && eq_words(&c.ek, &plain.ek, $n + 1) && eq_words(&c.dk, &plain.dk, $n + 1)),
+                Ok(c) => {
+                    replay_all();
+                    let plain = $ty::new(&Array(k));
+                    assert!(all_done() && ufo::calls() == 2 && eq_words(&c.ek, &plain.ek, $n + 1) && eq_words(&c.dk, &plain.dk, $n + 1));
+                }
                 Err(_) => assert!(false),
             }
         }
